@@ -220,7 +220,10 @@ pub fn check_program(p: &Program, st: &mut Stats, order: u64, part: &str) -> Opt
             ok = false;
             bad("name", Some(e), format!("name {:?} read back as {:?}", crate::util::show(e.expected_name().as_bytes()), crate::util::show(o.name.as_bytes())), st);
         }
-        if o.method != e.expected_method() {
+        // a directory or symlink added with options that name a compressing method: the statement does not say which
+        // method such an entry then reports (the crate stores it); only files are judged on the method
+        let method_free = e.kind != 0 && e.opts.method != 0;
+        if !method_free && o.method != e.expected_method() {
             ok = false;
             bad("method", Some(e), format!("method {} read back as {}", e.expected_method(), o.method), st);
         }
@@ -248,7 +251,7 @@ pub fn check_program(p: &Program, st: &mut Stats, order: u64, part: &str) -> Opt
                     ok = false;
                     bad("compressed_size", Some(e), format!("compressed_size() = {} but {} raw bytes", o.csize, r.len()), st);
                 }
-                if e.expected_method() == 0 && r.as_slice() != content {
+                if e.expected_method() == 0 && o.method == 0 && r.as_slice() != content {
                     ok = false;
                     bad("raw-stored", Some(e), "stored bytes differ from the content".into(), st);
                 }
@@ -393,7 +396,10 @@ pub fn enumerate(thorough: bool, seed: u64, f: &(dyn Fn(&Program, u64, &str, &mu
             },
         };
         let (m, l) = rml[d[3]];
-        if kind != 0 && d[3] != 0 {
+        // directories and symlinks take the same FileOptions as files (one shared options value for a whole tree is
+        // the common way to call the writer): every method/level of the reduced set for them too, on the first
+        // name/time/large digits only
+        if kind != 0 && d[3] != 0 && (d[4] != 0 || d[6] != 0 || d[2] > 1) {
             return;
         }
         // a directory name gains a '/': 65535 + 1 bytes is outside the format (C02's domain)
